@@ -169,7 +169,7 @@ PROPS = {
         "rule": "2-11 points over collision alphabets (types '', a, ab, 0, tombstone, value, description; keys '', 0, b, 00, 1), distinct timestamps per identity incl. 1, -1, MaxInt64, "
                 "texts incl. NUL / non-UTF-8, values incl. +-0, +-Inf, subnormal, 2^53+1, tombstone counts incl. negative/huge, origins, data; exact re-deliveries; random permutation and "
                 "partition into batches; delivered to a node, the root node or an edge of a fresh SQLite store through the real nodePoints/edgePoints; "
-                "observation = raw table rows + hashes; oracle = last-write-wins per identity computed from the deliveries alone; distinct = distinct case line",
+                "observation = raw table rows + hashes; oracle = last-write-wins per identity computed from the deliveries alone; distinct = distinct case line; every tenth case (those the wire carries unchanged: tombstone counts within int32, valid UTF-8 text) runs over the BUS on a fresh in-process instance instead: p.<id> / p.<id>.<parent> requests with acknowledgement, and the content read back through nodes.<parent>.<id> requests (client.GetNodes) with the reported hashes — the observation point the property names",
         "trusted": ["modernc SQLite: row storage fidelity (TEXT/BLOB/INT/REAL), atomic commit, rollback (parameter; every case runs on a real database file)", "hash/crc32 IEEE table implementation (modelled bit-serially; equality exercised through the stored hashes of every case)"],
         "modelled": ["store/sqlite.go nodePoints, edgePoints, updateHash/updateHashHelper/updateHashEdge, isAncestor, normalizePoints and data.Points.Collapse, data.Point.CRC, data.NodeEdge.CalcHash modelled by hand (Siot/Model/Store.lean, Crc32.lean)", "time.Now() for zero timestamps is not modelled (generated points carry explicit non-zero times)", "the model's upstream walks use fuel 2^|edges|, proved never to be exhausted on reachable (acyclic) states; the Go recursion has no bound"],
         "assumptions": ["Admissible: two different delivered points of one identity never share a timestamp", "no NaN values (refused, C05)"],
@@ -180,7 +180,7 @@ PROPS = {
         "thorough_seeds": 3,
         "rule": "random DAG histories of 3-12 steps over 6 node ids: nodes created points-first or edge-first, node points anywhere, edge points incl. delete/undelete, "
                 "mirrors (may close diamonds; cycle attempts are refused), attaching above populated subtrees, two-point batches, stale timestamps; "
-                "observation = every edge row (up, down, type, hash) and all point rows; oracle = from-scratch Merkle recomputation over the implementation's rows; distinct = distinct case line",
+                "observation = every edge row (up, down, type, hash) and all point rows; oracle = from-scratch Merkle recomputation over the implementation's rows; distinct = distinct case line; every tenth case (those the wire carries unchanged: tombstone counts within int32, valid UTF-8 text) runs over the BUS on a fresh in-process instance instead: p.<id> / p.<id>.<parent> requests with acknowledgement, and the content read back through nodes.<parent>.<id> requests (client.GetNodes) with the reported hashes — the observation point the property names",
         "trusted": ["modernc SQLite: row storage fidelity (TEXT/BLOB/INT/REAL), atomic commit, rollback (parameter; every case runs on a real database file)", "hash/crc32 IEEE table implementation (modelled bit-serially; equality exercised through the stored hashes of every case)"],
         "modelled": ["store/sqlite.go nodePoints, edgePoints, updateHash/updateHashHelper/updateHashEdge, isAncestor, normalizePoints and data.Points.Collapse, data.Point.CRC, data.NodeEdge.CalcHash modelled by hand (Siot/Model/Store.lean, Crc32.lean)", "time.Now() for zero timestamps is not modelled (generated points carry explicit non-zero times)", "the model's upstream walks use fuel 2^|edges|, proved never to be exhausted on reachable (acyclic) states; the Go recursion has no bound"],
         "assumptions": ["XOR Merkle hashes: a change below an ancestor reached by an even number of paths cancels at that ancestor (a property of the documented definition, see DESIGN)"],
